@@ -76,6 +76,72 @@ def eff_dom(dom, cond):
     return z3.Lambda([k], z3.And(z3.Select(dom, k), tobool(cond(k))))
 
 
+# ------------------------------------------------------------------------------- merged evaluation
+def merged_eval(fn, assumptions=()):
+    """Evaluate the PURE function fn() on a generic element: explore all of its sub-paths and merge the results into
+    one term (if-then-else over the sub-path conditions) instead of forking the enclosing path.
+    `assumptions` hold inside only (e.g. membership of the generic key)."""
+    c = ctx()
+    if c.mode != 'sym':
+        return fn()
+    outer = (c.prefix, c.pos, c.todo)
+    base = len(c.pc)
+    results = []
+    todo = [[]]
+    try:
+        while todo:
+            pre = todo.pop()
+            c.prefix, c.pos, c.todo = list(pre), 0, todo
+            c.solver.push()
+            try:
+                for a in assumptions:
+                    c.solver.add(a)
+                    c.pc.append(a)
+                nb = len(c.pc)
+                try:
+                    v = fn()
+                except Abort:
+                    continue
+                results.append((list(c.pc[nb:]), v))
+            finally:
+                c.solver.pop()
+                del c.pc[base:]
+            if len(results) > 200:
+                raise Unmodelled('merged evaluation explodes')
+    finally:
+        c.prefix, c.pos, c.todo = outer
+    if not results:
+        raise Abort()
+    return _merge(results)
+
+
+def _merge(results):
+    vals = [v for _, v in results]
+    v0 = vals[0]
+    if len(results) == 1:
+        return v0
+    if all(v is v0 for v in vals):
+        return v0
+    conds = [z3.And(*pc) if pc else z3.BoolVal(True) for pc, _ in results]
+    if all(isinstance(v, SymKey) for v in vals) and all(v.t.eq(v0.t) for v in vals):
+        return v0
+    if all(isinstance(v, tuple) for v in vals) and len({len(v) for v in vals}) == 1:
+        return tuple(_merge([(pc, v[i]) for (pc, v) in results]) for i in range(len(v0)))
+    if all(isinstance(v, dict) for v in vals) and all(set(v) == set(v0) for v in vals):
+        return {k: _merge([(pc, v[k]) for (pc, v) in results]) for k in v0}
+    if all(isinstance(v, (SymBool, bool, z3.BoolRef)) for v in vals):
+        t = tobool(vals[-1])
+        for cnd, v in zip(reversed(conds[:-1]), reversed(vals[:-1])):
+            t = z3.If(cnd, tobool(v), t)
+        return SymBool(t)
+    if all(isinstance(v, (SymNum, int, float)) and not isinstance(v, bool) for v in vals):
+        t = lift(vals[-1])
+        for cnd, v in zip(reversed(conds[:-1]), reversed(vals[:-1])):
+            t = z3.If(cnd, lift(v), t)
+        return SymNum(t)
+    raise Unmodelled('cannot merge results of types %s' % sorted({type(v).__name__ for v in vals}))
+
+
 # ------------------------------------------------------------------------------------------ SymIter
 class SymIter:
     """An abstract finite iterable indexed by a key set: element elem(k) for each k in dom with cond(k)."""
@@ -91,31 +157,43 @@ class SymIter:
         m = z3.Select(self.dom0, k)
         return m if self.cond is None else z3.And(m, tobool(self.cond(k)))
 
+    def gelem(self, k):
+        """element at the GENERIC (bound) key k as one merged term; universals are instantiated at k inside"""
+        def f():
+            add_keyterm(k)
+            return self.elem(k)
+        kt = ctx().ghost.setdefault('keyterms', [])
+        n = len(kt)
+        try:
+            return merged_eval(f, [z3.Select(self.dom0, k)])
+        finally:
+            del kt[n:]
+
     def __iter__(self):
         raise Unmodelled('CPython iteration over a symbolic collection (loop not rewritten?)')
 
     def __vc_sum__(self):
         k = z3.Const('__k', K)
-        return SymNum(SUM(self.dom, z3.Lambda([k], lift(self.elem(k)))))
+        return SymNum(SUM(self.dom, z3.Lambda([k], lift(self.gelem(k)))))
 
     def __vc_any__(self):
         w = {}
 
         def yes():
             k = fresh_key('any_w')
-            ctx().assume(z3.And(self.member(k), tobool(self.elem(k))))
+            ctx().assume(z3.And(self.member(k), tobool(self.gelem(k))))
 
         def no():
-            add_universal(lambda k: z3.Implies(self.member(k), z3.Not(tobool(self.elem(k)))))
+            add_universal(lambda k: z3.Implies(self.member(k), z3.Not(tobool(self.gelem(k)))))
         return choice('any', yes, no)
 
     def __vc_all__(self):
         def yes():
-            add_universal(lambda k: z3.Implies(self.member(k), tobool(self.elem(k))))
+            add_universal(lambda k: z3.Implies(self.member(k), tobool(self.gelem(k))))
 
         def no():
             k = fresh_key('all_w')
-            ctx().assume(z3.And(self.member(k), z3.Not(tobool(self.elem(k)))))
+            ctx().assume(z3.And(self.member(k), z3.Not(tobool(self.gelem(k)))))
         return choice('all', yes, no)
 
     def __vc_len__(self):
@@ -366,6 +444,28 @@ def merge(*ms):
     return acc if acc is not None else {}
 
 
+class OptTimeMap:
+    """dict[key -> Optional[timestamp]] (DynamicUniverse.asset_dates): dom + is-None flag + value arrays"""
+
+    def __init__(self, name):
+        c = ctx()
+        self.dom = c._const(name + '.dom', AKB)
+        self.isnone = c._const(name + '.isnone', AKB)
+        self.val = c._const(name + '.val', AKR)
+
+    def items(self):
+        return SymIter(self.dom, lambda k: (SymKey(k), SymOpt(z3.Select(self.isnone, k), SymTime(z3.Select(self.val, k)))))
+
+    def keys(self):
+        return SymIter(self.dom, lambda k: SymKey(k))
+
+    def __iter__(self):
+        raise Unmodelled('CPython iteration over a symbolic dict')
+
+    def __vc_loop__(self):
+        return self.keys()
+
+
 # ------------------------------------------------------------------------------------------- Region
 class Region:
     """dict[key -> object of class cls]: dom + one z3 array per data field; d[k] yields a *view*: an instance of a
@@ -532,7 +632,7 @@ core_trusted = 'queue.Queue = FIFO sequence (put appends, get removes the head, 
 def vc_ordered_dict(*a, **k):
     if a or k:
         return collections.OrderedDict(*a, **k)
-    return {}
+    return new_dict(())
 
 
 def vc_deque(it=(), maxlen=None):
@@ -654,8 +754,8 @@ def loop(lid, iterable, env):
         it = iterable.__vc_loop__()
         fac = LOOPSPEC.get(lid)
         if fac is None:
-            ctx().note('loop without spec cut with the trivial invariant: %s' % lid)
-            return MapLoop(lid, it, env, None) if isinstance(it, SymIter) else _nospec(lid)
+            # no invariant for this loop shape (the loop was added or restructured): everything after it is undecided
+            _nospec(lid)
         return fac(lid, it, env)
     return None
 
@@ -692,7 +792,7 @@ def comp(kind, f, it, cond):
             return SymIter(src.dom0, lambda k: f(src.elem(k)), c2, 'arb').__vc_set__()
         if kind == 'dict':
             g = z3.Const('__g', K)
-            kk, vv = f(src.elem(g))
+            kk, vv = SymIter(src.dom0, lambda k: f(src.elem(k))).gelem(g)
             if not (isinstance(kk, SymKey) and kk.t.eq(g)):
                 raise Unmodelled('dict comprehension re-keying a symbolic collection')
             dom = eff_dom(src.dom0, c2)
@@ -880,10 +980,22 @@ def fmt(lit, args):
     return lit % args
 
 
+def _guarded(thunk, guard_terms):
+    c = ctx()
+    if c is None or not guard_terms:
+        return thunk()
+    n = len(c.guards)
+    c.guards.extend(guard_terms)
+    try:
+        return thunk()
+    finally:
+        del c.guards[n:]
+
+
 def and_(*thunks):
     vals = []
     for t in thunks:
-        v = t()
+        v = _guarded(t, list(vals))
         if isinstance(v, SymBool):
             vals.append(v.t)
         elif isinstance(v, z3.BoolRef):
@@ -899,7 +1011,7 @@ def and_(*thunks):
 def or_(*thunks):
     vals = []
     for t in thunks:
-        v = t()
+        v = _guarded(t, [z3.Not(x) for x in vals])
         if isinstance(v, SymBool):
             vals.append(v.t)
         elif isinstance(v, z3.BoolRef):
@@ -919,7 +1031,7 @@ def not_(v):
 
 def ite(c, a, b):
     if isinstance(c, SymBool):
-        x, y = a(), b()
+        x, y = _guarded(a, [c.t]), _guarded(b, [z3.Not(c.t)])
         return SymNum(z3.If(c.t, lift(x), lift(y)))
     return a() if c else b()
 
